@@ -268,6 +268,7 @@ class Fn:
             for s in ss:
                 self.pred[s].append(a)
         self._dom = None
+        self._dbg = None
         self.reach = None
         self._term_cache = {}
 
@@ -358,6 +359,38 @@ class Fn:
             if t not in dom[p]:
                 return False
         return self.succ[s].count(t) == 1
+
+    def debug_switches(self):
+        """Blocks whose switch belongs to a debug_assert!: the switch itself carries the macro, or one of
+        its arms runs straight into the assertion's panic."""
+        if self._dbg is None:
+            out = set()
+            for bi, b in enumerate(self.blocks):
+                t = b['t']
+                if t['k'] != 'switch':
+                    continue
+                if any(m.startswith('debug_assert') for m in t.get('macros', [])):
+                    out.add(bi)
+                    continue
+                for to in [a[1] for a in t['arms']] + [t['else']]:
+                    cur = to
+                    for _ in range(6):
+                        tt = self.blocks[cur]['t']
+                        if tt['k'] == 'call':
+                            ms = tt.get('macros', [])
+                            if any(m.startswith('debug_assert') for m in ms) and \
+                                    (tt['to'] < 0 or any('panic' in m or 'assert' in m for m in ms)):
+                                out.add(bi)
+                                break
+                            if tt['to'] < 0:
+                                break
+                            cur = tt['to']
+                        elif tt['k'] == 'goto' and not self.blocks[cur]['s']:
+                            cur = tt['to']
+                        else:
+                            break
+            self._dbg = out
+        return self._dbg
 
     def calls(self):
         self.dom()
@@ -487,7 +520,8 @@ def inline_call(facts, fn, args):
         return ('cmp', TRAIT_CMP[name], strip_ref(args[0]), strip_ref(args[1]))
     if tr == 'num_traits::AsPrimitive' and name == 'as_':
         to = fn['gargs'][1] if len(fn.get('gargs', [])) > 1 else '?'
-        return ('as_', to, strip_ref(args[0]))
+        frm = fn['gargs'][0] if fn.get('gargs') else '?'
+        return ('as_', to, strip_ref(args[0]), frm)
     if tr in ('std::ops::Shr', 'std::ops::Shl', 'std::ops::BitAnd', 'std::ops::BitOr', 'std::ops::Add',
               'std::ops::Sub', 'std::ops::Mul', 'std::ops::Div', 'std::ops::Rem', 'std::ops::BitXor') and len(args) == 2:
         op = tr.split('::')[-1]
@@ -728,7 +762,7 @@ def path_atoms(F, bb, include_debug=False):
             continue
         if t['k'] != 'switch' or s in F.const_switch:
             continue
-        if not include_debug and any(m.startswith('debug_assert') for m in t.get('macros', [])):
+        if not include_debug and s in F.debug_switches():
             continue
         targets = [(int(v), to) for v, to in t['arms']]
         els = t['else']
@@ -841,3 +875,18 @@ def strip_casts(t):
     while isinstance(t, tuple) and t and t[0] in ('cast', 'as_'):
         t = t[2]
     return t
+
+
+def fn_key(f):
+    """Stable, line-free identity of a function for instance keys: Type[::Trait]::name"""
+    if f['kind'] == 'Closure':
+        return strip_generics(f['path'].replace('<', '(').replace('>', ')')) if False else re.sub(r'<[^<>]*>', '', re.sub(r'<[^<>]*>', '', f['path']))
+    base = f.get('_base') or base_type(f.get('impl_self') or '')
+    if f.get('impl_trait'):
+        tr = f['impl_trait'].split('::')[-1]
+        if base in ('', 'Self'):
+            return '%s::%s' % (tr, f['name'])
+        return '%s::%s::%s' % (base, tr, f['name'])
+    if base:
+        return '%s::%s' % (base, f['name'])
+    return strip_generics(f['path'])
